@@ -96,6 +96,9 @@ class Integrator(object):
             theta (float): Upper limit of the integration. Total area of the pulse waveform.
             a (float): Scaling parameter.
         """
+        if theta == 0:
+            # The closed forms are 0/0 at theta = 0; their limit is the constant integrand times the duration.
+            return a * self._INTEGRAL_LOOKUP[integrand_str](0.0, a)
         integral = self._RESULT_LOOKUP[integrand_str]
         return integral(theta, a)
 
